@@ -795,7 +795,11 @@ func (n *Field) String() string {
 	}
 	s.WriteString(n.Type.String())
 	if n.Tag != "" {
-		s.WriteString(" `" + n.Tag + "`")
+		if strconv.CanBackquote(n.Tag) {
+			s.WriteString(" `" + n.Tag + "`")
+		} else {
+			s.WriteString(" " + strconv.Quote(n.Tag))
+		}
 	}
 	return s.String()
 }
